@@ -262,7 +262,10 @@ def run_shard(item):
         for src, meta in c08.programs_for_shard(item):
             for s2, ch in ((src, False), (src, True)) if b'\n' in src else ((src, False),):
                 probs = check_source(s2, res, 'programs', chunked=ch)
-                if probs:
+                if probs and probs[0][0].startswith('raise-') and c08.has_qprint(meta['prog'].skeleton):
+                    res.violation('C06|qprint|load-raises', 'the valid program %r (? print inside a block) cannot be loaded: %s' % (
+                        s2, probs[0][1]), {'src': s2, 'fam': 'programs', 'detail': 'qprint'})
+                elif probs:
                     report(s2, probs, res, 'programs', 'program')
     return res
 
@@ -271,6 +274,10 @@ def replay(case):
     res = ShardResult()
     src = case['src']
     fam = case.get('fam', 'misc')
+    if case.get('detail') == 'qprint':
+        r = ShardResult()
+        probs = check_source(src, r, fam)
+        return [('C06|qprint|load-raises', probs[0][1])] if probs and probs[0][0].startswith('raise-') else []
     got = []
     for ch in (False, True):
         r = ShardResult()
